@@ -431,8 +431,9 @@ Print Assumptions C16_hex_key_wrong_length_refused.
     Sections 2, 12 and 13 speak about [value_from_bytes], which reads the width off the registry
     entry.  The Go function does not consult the registry: it tries the key, then three
     switch tables.  The two are the same function, for every identifier and every byte string;
-    the tables list each registered identifier exactly once and nothing else (the case labels
-    of the three switches are tied to the source by the constants tie). *)
+    the tables list each registered identifier exactly once and nothing else (which table lists
+    an identifier is tied to the code by an exhaustive sweep on every run: every register type
+    and unknown identifiers x every byte length 0..40 through the real ValueFromBytes). *)
 
 Theorem C16_parser_width_registry : forall id,
   parser_width id = match lookup id registry with Some i => Some (r_parser i) | None => None end.
